@@ -523,7 +523,6 @@ class ControlledPool:
         controller.pools.append(self)
         self._pending = collections.deque()
         self._jobs = {}
-        self._job_labels = {}
         self._completed = []
         self._next_wid = 0
         self._workers = []
@@ -869,106 +868,112 @@ def _ret_lambda(x):
     return lambda: x
 
 
-def selftest():
-    """Every schedule of small jobs through each API; compared with the real pool where the real
-    pool is deterministic.  Returns the number of executions; raises HarnessError on a mismatch."""
+def _all_runs(body, workers):
+    """Every schedule of body(PoolClass) on `workers` controlled workers -> [(result, completion order)]."""
+    out = []
+
+    def once(ch):
+        ctl = Controller(ch, workers, task_timeout=30.0)
+        try:
+            try:
+                r = ("ok", body(ctl.pool_class()))
+            except PoolSignal as e:
+                r = ("signal", type(e).__name__)
+            except Exception as e:
+                r = ("exc", type(e).__name__, str(e)[:80])
+        finally:
+            ctl.shutdown()
+        return r, ctl.completion_order()
+
+    for _, res in core.explore(once):
+        out.append(res)
+    return out
+
+
+def _b_imap(P):
+    with P() as p:
+        return [x for x in p.imap(_sq, [1, 2, 4])]
+
+
+def _b_unordered(P):
+    with P() as p:
+        return list(p.imap_unordered(_sq, [1, 2, 4]))
+
+
+def _b_map_err(P):
+    with P() as p:
+        return p.map(_sq, [1, 3, 4])
+
+
+def _b_imap_err(P):
+    with P() as p:
+        it = p.imap(_sq, [1, 3, 4])
+        got = []
+        while True:
+            try:
+                got.append(next(it))
+            except StopIteration:
+                break
+            except ValueError as e:
+                got.append("E:" + str(e))
+        return got
+
+
+def _b_apply(P):
+    with P() as p:
+        rs = [p.apply_async(_sq, (i,)) for i in (5, 6)]
+        return [r.get() for r in reversed(rs)]
+
+
+def _b_state(P):
+    with P() as p:
+        return sorted(map(tuple, p.imap_unordered(_pid_state, [1, 2, 3])))
+
+
+def _b_unload(P):
+    with P() as p:
+        return [type(x).__name__ for x in p.imap(_ret_unloadable, [1])]
+
+
+def _b_unpicklable(P):
+    with P() as p:
+        try:
+            return list(p.imap(_ret_lambda, [1]))
+        except MaybeEncodingError:
+            return "MaybeEncodingError"
+
+
+def _b_chunks(P):
+    with P() as p:
+        return list(p.imap(_sq, [1, 2, 4, 5, 6], chunksize=2)), p.map(_sq, range(3), chunksize=2)
+
+
+def _b_close_join(P):
+    p = P()
+    r = p.map_async(_sq, [1, 2])
+    p.close()
+    p.join()
+    return r.ready(), r.get()
+
+
+def _real(body, k):
     import multiprocessing
 
-    n_exec = 0
+    ctx = multiprocessing.get_context("fork")
+    try:
+        return ("ok", body(lambda: ctx.Pool(k)))
+    except Exception as e:
+        return ("exc", type(e).__name__, str(e)[:80])
 
-    def all_runs(body, workers):
-        nonlocal n_exec
-        out = []
 
-        def once(ch):
-            nonlocal n_exec
-            ctl = Controller(ch, workers, task_timeout=30.0)
-            try:
-                try:
-                    r = ("ok", body(ctl.pool_class()))
-                except PoolSignal as e:
-                    r = ("signal", type(e).__name__)
-                except Exception as e:
-                    r = ("exc", type(e).__name__, str(e)[:80])
-            finally:
-                ctl.shutdown()
-            n_exec += 1
-            return r, ctl.completion_order()
+_SAME_AS_REAL = (_b_imap, _b_imap_err, _b_apply, _b_chunks, _b_unpicklable, _b_map_err, _b_close_join)
 
-        for choices, res in core.explore(once):
-            out.append(res)
-        return out
 
-    def b_imap(P):
-        with P() as p:
-            got = []
-            it = p.imap(_sq, [1, 2, 4])
-            for x in it:
-                got.append(x)
-            return got
-
-    def b_unordered(P):
-        with P() as p:
-            return list(p.imap_unordered(_sq, [1, 2, 4]))
-
-    def b_map_err(P):
-        with P() as p:
-            return p.map(_sq, [1, 3, 4])
-
-    def b_imap_err(P):
-        with P() as p:
-            it = p.imap(_sq, [1, 3, 4])
-            got = []
-            while True:
-                try:
-                    got.append(next(it))
-                except StopIteration:
-                    break
-                except ValueError as e:
-                    got.append("E:" + str(e))
-            return got
-
-    def b_apply(P):
-        with P() as p:
-            rs = [p.apply_async(_sq, (i,)) for i in (5, 6)]
-            return [r.get() for r in reversed(rs)]
-
-    def b_state(P):
-        with P() as p:
-            return sorted(map(tuple, p.imap_unordered(_pid_state, [1, 2, 3])))
-
-    def b_unload(P):
-        with P() as p:
-            return [type(x).__name__ for x in p.imap(_ret_unloadable, [1])]
-
-    def b_unpicklable(P):
-        with P() as p:
-            try:
-                return list(p.imap(_ret_lambda, [1]))
-            except MaybeEncodingError:
-                return "MaybeEncodingError"
-
-    def b_chunks(P):
-        with P() as p:
-            return list(p.imap(_sq, [1, 2, 4, 5, 6], chunksize=2)), p.map(_sq, range(3), chunksize=2)
-
-    def real(body, k):
-        ctx = multiprocessing.get_context("fork")
-        try:
-            return ("ok", body(lambda *a, **kw: ctx.Pool(k, *a[1:], **kw)))
-        except Exception as e:
-            return ("exc", type(e).__name__, str(e)[:80])
-
-    for w in (1, 2, 3):
-        for body, deterministic in ((b_imap, True), (b_imap_err, True), (b_apply, True), (b_chunks, True), (b_unpicklable, True), (b_map_err, True)):
-            runs = all_runs(body, w)
-            outcomes = set(repr(r) for r, _ in runs)
-            if deterministic and len(outcomes) != 1:
-                raise core.HarnessError("vpool selftest: %s has %d outcomes on %d workers" % (body.__name__, len(outcomes), w))
-            want = repr(real(body, w))
-            if outcomes != {want}:
-                raise core.HarnessError("vpool selftest: %s on %d workers: controlled %r, real %r" % (body.__name__, w, outcomes, want))
-        runs = all_runs(b_unordered, w)
+def _selftest_job(job):
+    """-> number of controlled executions; raises HarnessError on a mismatch."""
+    name, w = job
+    if name == "unordered":
+        runs = _all_runs(_b_unordered, w)
         got = set(tuple(r[1]) for r, _ in runs)
         # with 2 workers the third task starts only after one of the first two has completed
         want = {1: {(1, 4, 16)}, 2: {p for p in itertools.permutations((1, 4, 16)) if p[0] != 16}, 3: set(itertools.permutations((1, 4, 16)))}[w]
@@ -977,8 +982,9 @@ def selftest():
         for r, order in runs:
             if tuple(r[1]) != tuple([1, 4, 16][i] for _, i in order):
                 raise core.HarnessError("vpool selftest: imap_unordered does not deliver in completion order")
-        runs = all_runs(b_state, w)
-        # per-worker module state: the multiset of histories is a partition of [1,2,3] into <= w increasing runs
+    elif name == "state":
+        runs = _all_runs(_b_state, w)
+        # per-worker module state: the histories partition [1,2,3] into <= w increasing runs
         for r, _ in runs:
             hist = r[1]
             firsts = [h for h in hist if len(h) == 1]
@@ -987,7 +993,25 @@ def selftest():
         nparts = len(set(repr(r) for r, _ in runs))
         if nparts != {1: 1, 2: 4, 3: 5}[w]:
             raise core.HarnessError("vpool selftest: %d distinct worker-state partitions on %d workers" % (nparts, w))
-        runs = all_runs(b_unload, w)
+    elif name == "unload":
+        runs = _all_runs(_b_unload, w)
         if set(r for r, _ in runs) != {("signal", "PoolHang")}:
             raise core.HarnessError("vpool selftest: unloadable result not reported as a hang: %r" % (runs[:3],))
-    return n_exec
+    else:
+        body = [b for b in _SAME_AS_REAL if b.__name__ == name][0]
+        runs = _all_runs(body, w)
+        outcomes = set(repr(r) for r, _ in runs)
+        want = repr(_real(body, w))
+        if outcomes != {want}:
+            raise core.HarnessError("vpool selftest: %s on %d workers: controlled %r, real %r" % (name, w, outcomes, want))
+    return len(runs)
+
+
+def selftest(mapper=None):
+    """Every schedule of small jobs through each API on 1..3 workers; where the real pool is
+    deterministic the outcome must be the real pool's.  mapper(fn, items) may distribute the jobs
+    over non-daemonic processes (the jobs create real pools).  Returns the number of controlled
+    executions; raises HarnessError on a mismatch."""
+    jobs = [(n, w) for w in (1, 2, 3) for n in [b.__name__ for b in _SAME_AS_REAL] + ["unordered", "state", "unload"]]
+    res = mapper(_selftest_job, jobs) if mapper else [_selftest_job(j) for j in jobs]
+    return sum(res)
